@@ -162,3 +162,16 @@ Definition c18_caller_code (k : c18_caller_case) : nat :=
 
 Definition c18_caller_mismatches (ks : list c18_caller_case) : list (nat * nat) :=
   nonzero_from 0 (map c18_caller_code ks).
+
+(** ** API glue (ReqReply/Api.v): configuration validation and the exits of SendWithReplies before /
+    right after the listener starts; verdicts C18/api:... *)
+From WM Require Import ReqReply.Api.
+Inductive c18_api_case :=
+| AV (v : vcfg) (accepted : bool)
+| AL (has_hook : bool) (i : listen_in) (o : api_obs).
+Definition c18_api_violates (k : c18_api_case) : bool :=
+  match k with
+  | AV v a => negb (validate_ok v a)
+  | AL h i o => negb (api_ok h i o)
+  end.
+Definition c18_api_violations (ks : list c18_api_case) : list nat := positions (map c18_api_violates ks).
